@@ -27,6 +27,9 @@ import (
 	"encoding/binary"
 	"encoding/hex"
 	"fmt"
+	"io"
+	"os"
+	"path/filepath"
 	"unicode/utf16"
 	"unicode/utf8"
 
@@ -525,6 +528,34 @@ func c13openmap(r *Run, kind string, seed uint64) {
 	case "enc-truncated":
 		data = mkBook(pw)
 		data = data[:len(data)/2/512*512]
+	case "ole-stored-part": // an unprotected macro workbook whose vbaProject.bin (a compound file) is STORED in the zip
+		f := xl.NewFile()
+		repo := os.Getenv("VERIF_REPO")
+		if repo == "" {
+			repo = "/repo"
+		}
+		vba, _ := os.ReadFile(filepath.Join(repo, "test", "vbaProject.bin"))
+		_ = f.AddVBAProject(vba)
+		f.Path = "x.xlsm"
+		var buf bytes.Buffer
+		_ = f.Write(&buf)
+		f.Close()
+		zr0, _ := zip.NewReader(bytes.NewReader(buf.Bytes()), int64(buf.Len()))
+		var out bytes.Buffer
+		zw := zip.NewWriter(&out)
+		for _, zf := range zr0.File {
+			rc, _ := zf.Open()
+			part, _ := io.ReadAll(rc)
+			rc.Close()
+			m := zip.Deflate
+			if zf.Name == "xl/vbaProject.bin" {
+				m = zip.Store
+			}
+			w, _ := zw.CreateHeader(&zip.FileHeader{Name: zf.Name, Method: m})
+			_, _ = w.Write(part)
+		}
+		_ = zw.Close()
+		data, openPw = out.Bytes(), ""
 	case "zip-bad-part": // zip opens, a part does not decode
 		f := xl.NewFile()
 		f.Pkg.Store("xl/styles.xml", []byte("<styleSheet><fonts"))
@@ -606,7 +637,21 @@ func c13openmap(r *Run, kind string, seed uint64) {
 	}
 }
 
-var c13openKinds = []string{"plain", "plain-pw", "garbage", "garbage-pw", "enc-right", "enc-wrong", "enc-missing", "ole-short", "ole-damaged", "ole-in-zip", "enc-truncated", "zip-bad-part"}
+var c13openKinds = []string{"plain", "plain-pw", "garbage", "garbage-pw", "enc-right", "enc-wrong", "enc-missing", "ole-short", "ole-damaged", "ole-in-zip", "ole-stored-part", "enc-truncated", "zip-bad-part"}
+
+// c13einfo: the EncryptionInfo stream the real Encrypt wrote vs the model's layout
+// (assembleInfo) given the random parts found in it (salt, encrypted verifier, encrypted hash).
+func c13einfo(r *Run, info []byte) {
+	if len(info) < 68 {
+		return
+	}
+	n := len(info)
+	salt, ev, eh := info[n-68:n-52], info[n-52:n-36], info[n-32:]
+	op := fmt.Sprintf("einfo %s %s %s", hx(string(salt)), hx(string(ev)), hx(string(eh)))
+	r.Op(op, hx(string(info)))
+	r.Stat("op:einfo")
+	r.Case("einfo", true)
+}
 
 func c13agileSizes(rng *Rng, thorough bool) []int {
 	s := []int{4096, 0, 1, 15, 16, 17, 100, 4079, 4080, 4081, 4088, 4095, 4097, 4111, 4112, 4113, 8175, 8176, 8177, 8191, 8192, 8193,
